@@ -40,7 +40,7 @@ Section CopyProof.
   (** ** the statements before the loop *)
   Definition head_rec (h : heap) (r : nrec) : nrec :=
     mkN (nm r) (content r) (tail r) (prefix r) (next_loc h) (S (S (next_loc h))) (S (next_loc h)) []
-        (parent r) (uuid (next_id h)).
+        None (uuid (next_id h)).
 
   Lemma copy_head_spec h n r :
     HeapWf h -> nget h n = Some r ->
@@ -58,7 +58,7 @@ Section CopyProof.
     intros W Hn. destruct (hw_locs _ W _ _ Hn) as (La & Le & Ln).
     unfold copy_head. cbn [fst snd].
     set (B := next_id h). set (h1 := fst (new_node h r)).
-    set (r1 := set_idstr r (uuid B)). set (h2 := nset h1 B r1).
+    set (r1 := set_parent (set_idstr r (uuid B)) None). set (h2 := nset h1 B r1).
     set (h3 := set_store h2 (dict_set (idstr r1) B (store h2))).
     set (r2 := set_attrs r1 (next_loc h3)). set (h5 := fresh_dict h3 B r2 (attrs_loc r)).
     set (r3 := set_ns r2 (next_loc h5)). set (h7 := fresh_dict h5 B r3 (ns_loc r)).
@@ -140,7 +140,7 @@ Section CopyProof.
     cp_store : forall k, (forall m, next_id h <= m < next_id h' -> k <> uuid m) ->
                          assoc k (store h') = assoc k (store h);
     cp_reify : forall g t, reify g h n = Some t -> exists t', reify g h' n' = Some t' /\ erase t' = erase t;
-    cp_parent : exists r r', nget h n = Some r /\ nget h' n' = Some r' /\ parent r' = parent r;
+    cp_parent : exists r', nget h' n' = Some r' /\ parent r' = None;
     cp_fuel : fuel_of h <= fuel_of h';
     cp_store_nodup : NoDup (keys (store h)) -> NoDup (keys (store h'))
   }.
@@ -452,7 +452,7 @@ Section CopyProof.
       assert (Nat.eqb (S (S L)) L = false) as -> by (apply Nat.eqb_neq; lia).
       assert (Nat.eqb (S (S L)) (S L) = false) as -> by (apply Nat.eqb_neq; lia).
       reflexivity.
-    - exists r, (set_kids (head_rec h r) cs). auto.
+    - exists (set_kids (head_rec h r) cs). auto.
     - apply LI.
     - apply LI.
   Qed.
